@@ -13,14 +13,14 @@ LEVEL = "fault_enumeration"
 TLS_CLASSES = [(tls.SSL30, 0x0035, False), (tls.TLS10, 0x0005, False), (tls.TLS10, 0x002F, False), (tls.TLS11, 0x000A, False),
                (tls.TLS12, 0xC02F, False), (tls.TLS12, 0x003C, True), (tls.TLS12, 0xCCA8, False), (tls.TLS13, 0x1301, False),
                (tls.TLS13, 0x1303, False)]
-TLS_SHAPES = ["per_record", "span3", "coalesced", "mss7", "reordered", "duplicated", "coalesced_retransmission", "seq_wrap"]
+TLS_SHAPES = ["per_record", "span3", "coalesced", "mss7", "reordered", "duplicated", "coalesced_retransmission", "seq_wrap", "garbage_tail", "swapped_records"]
 QUIC_SHAPES = ["default", "coalesced", "key_update", "zero_rtt", "chacha_retry", "two_flows", "rebinding", "rebinding_early"]
 
 
 def describe(tier):
     return {
         "rule": f"{len(TLS_CLASSES)} TLS classes x {len(TLS_SHAPES)} packetisations (one record per segment, records spanning 3 "
-                "segments, coalesced flights with two records per segment, 7-byte segments, a displaced segment, a retransmission, a coalescing retransmission, sequence numbers wrapping at 2^32 inside the data) + "
+                "segments, coalesced flights with two records per segment, 7-byte segments, a displaced segment, a retransmission, a coalescing retransmission, sequence numbers wrapping at 2^32 inside the data, a final record of 21 arbitrary bytes, two whole-record segments captured in swapped order) + "
                 f"{len(QUIC_SHAPES)} QUIC captures (default, coalesced, key updates, 0-RTT, ChaCha20 with Retry, two interleaved flows, the client's UDP port changing in mid-connection (NAT rebinding) late and early); "
                 "for QUIC the exported DATAGRAMS (addresses and payload) of a cut must be a prefix of the next cut's; "
                 "every cut position 0..N of every capture. non-trivial: a cut whose export is strictly longer than the previous "
@@ -42,6 +42,8 @@ def cases(tier, seed):
                 yield {"kind": "tls", "cls": -1, "vce": [v, code, etm], "shape": sh, "seed": seed}
     for ci in range(len(TLS_CLASSES)):
         for sh in TLS_SHAPES:
+            if sh == "garbage_tail" and TLS_CLASSES[ci][1] in (0x0005, 0x0004):
+                continue          # RC4 has no framing a 21-byte record could violate
             yield {"kind": "tls", "cls": ci, "shape": sh, "seed": seed}
     for sh in QUIC_SHAPES:
         yield {"kind": "quic", "shape": sh, "seed": seed}
@@ -59,7 +61,7 @@ def build(case):
         conn = scen.tls_conn(scn, seed)
         e = cap.Ends(4, v6=(case["cls"] % 2 == 1))
         mss = {"per_record": 1460, "span3": 300, "coalesced": 1460, "mss7": 7, "reordered": 300, "duplicated": 300,
-               "coalesced_retransmission": 300, "seq_wrap": 300}[sh]
+               "coalesced_retransmission": 300, "seq_wrap": 300, "garbage_tail": 300, "swapped_records": 1460}[sh]
         if sh == "coalesced":
             # merge consecutive sends of one direction so that one segment carries several records
             sends, out = scen.tls_sends(conn), []
@@ -102,6 +104,23 @@ def build(case):
         if sh == "duplicated":
             for i in data_idx[2::3][::-1]:
                 pk.insert(min(len(pk), i + 2), pk[i])
+        if sh == "swapped_records":
+            # one record per segment; the server's two consecutive application records are captured in swapped order: the later
+            # one starts on a record boundary and could be framed on its own, but belongs behind the one still missing
+            srv = [i for i in data_idx if pk[i].dir == "s"]
+            a = [k for k in range(len(srv) - 1) if srv[k + 1] == srv[k] + 1 and pk[srv[k]].end - pk[srv[k]].start > 100]
+            if a:
+                i = srv[a[-1]]
+                pk[i], pk[i + 1] = pk[i + 1], pk[i]
+        if sh == "garbage_tail":
+            # the capture ends with one more server segment that holds an application-data record of 21 arbitrary bytes (no whole
+            # number of cipher blocks, shorter than any tag): it can yield nothing, and must not take back what was exported
+            last = [p for p in pk if p.dir == "s" and p.payload][-1]
+            g = last.copy()
+            g.seq = (last.seq + len(last.payload)) & 0xFFFFFFFF
+            g.payload = b"\x17" + last.payload[1:3] + b"\x00\x15" + bytes(range(0x30, 0x45))
+            g.start, g.end = last.end, last.end + len(g.payload)
+            pk.append(g)
         flows = [scen.Flow("tls", conn, e, 0, pk)]
         pkts = cap.stamp([p.copy() for p in pk], {0: e})
         return flows, pkts, conn.keylog
